@@ -1273,6 +1273,8 @@ class C03(SessionProp):
         specs = [("short", i, j, self.max_exhaustive_bytes) for i in range(len(self.SHORT)) for j in range(2)]
         specs += [("connack", k) for k in range(2)]
         specs += [("long", i) for i in range(4 if tier == "quick" else 8)]
+        if tier != "quick":
+            specs += [("huge", i) for i in range(2)]      # 4-byte remaining length (2.1 MB payload)
         return specs
 
     def run_exhaustive(self, spec, res):
@@ -1286,6 +1288,10 @@ class C03(SessionProp):
         elif spec[0] == "connack":
             setup = [("build", 0), ("handlers", 0, 7), ("connect", 0, 7 * spec[1], 1, 0), ("publish", 0, 1)]
             stream = [("rx", 0, "CONNACK", 0, 1), ("rx", 0, "PUBACK", 0, 0, 0), ("rx", 0, "PUBLISH", 0, 0, 0)]
+        elif spec[0] == "huge":
+            cfg = dict(profile=3, version=4, jitter=0.25, big=True)
+            setup = G.preamble(cfg, dict(window=4)) + [("publish", 0, 1)]
+            stream = [("rx", 0, "PUBACK", 0, 0, 0), ("rx", 0, "PUBLISH", 1 + spec[1] % 2, (7 << 4) | 4, 0), ("rx", 0, "PINGRESP")]
         else:
             # long packets: 2- and 3-byte (thorough: 4-byte) remaining lengths, every 1-cut near the header and a stride elsewhere
             size_bits = [(3 << 4), (4 << 4), (5 << 4), (4 << 4) | 1, (3 << 4), (5 << 4), (4 << 4), (3 << 4)][spec[1] % 8]
@@ -1314,13 +1320,13 @@ class C03(SessionProp):
             ones = set()
             for b in bounds:
                 ones.update(range(max(1, b - 3), min(total, b + 8)))
-            ones.update(range(1, total, max(1, total // 200)))
+            ones.update(range(1, total, max(1, total // (200 if total < 1000000 else 12))))
             for c in sorted(ones):
                 vd = Verdict()
                 self.compare(vd, cfg, setup, stream, [c], ref)
                 res.add("exhaustive:one_cut", (cfg, setup, stream, [c]), vd)
                 n += 1
-            near = sorted(x for x in ones if any(abs(x - b) <= 5 for b in bounds))
+            near = sorted(x for x in ones if any(abs(x - b) <= (5 if total < 1000000 else 3) for b in bounds))
             for c1, c2 in itertools.combinations(near, 2):
                 vd = Verdict()
                 self.compare(vd, cfg, setup, stream, [c1, c2], ref)
